@@ -10,6 +10,7 @@ import PsV.Driver.C12
 import PsV.Driver.C14
 import PsV.Driver.C17
 import PsV.Driver.C09
+import PsV.Driver.C08
 open PsV.Driver
 
 def stateless (f : List String → String) : IO Unit := do
@@ -26,7 +27,8 @@ def drivers : List (String × IO Unit) :=
    ("C13", stateless C13.handle),
    ("C18", C18.run),
    ("C17", stateless C17.handle),
-   ("C09", C09.run)]
+   ("C09", C09.run),
+   ("C08", C08.run)]
 
 def main (args : List String) : IO UInt32 := do
   match args with
